@@ -14,24 +14,25 @@ PQG(S) == {V("pqg", s[1], s[2], 0, 0, FALSE, 0) : s \in S}
 Com(S, n) == {V("com", s[1], s[2], 0, 0, FALSE, n) : s \in S}
 Vsshe(S, L) == {V("com", s[1], s[2], 0, le, FALSE, 2) : s \in S, le \in L}
 
-\* groups of variants: accepting sets of the whole box for all of them (A_*), neighbourhoods of the well-formed sets for
+\* groups of variants: accepting sets of the box for all of them (A_*), neighbourhoods of the well-formed sets for
 \* the N_* ones, block = definition by filtering for the D_* ones (the most permissive sizes)
 A_one == Dlog(SZ) \cup QR(QRSZ) \cup PQG(SZ)
 N_one == Dlog(SZ2) \cup QR({<<3, 3>>, <<5, 4>>, <<6, 3>>}) \cup PQG(SZ2)
 D_one == Dlog({<<3, 2>>}) \cup QR({<<3, 1>>}) \cup PQG({<<3, 2>>})
 A_com1 == Com(SZ, 1)
-N_com1 == Com(SZ2, 1)
+A_com1q == Com(SZ2, 1)
 D_com1 == Com({<<3, 2>>}, 1)
 A_two == PQGH(SZ)
-N_two == PQGH(SZ2)
+A_twoq == PQGH(SZ2)
 D_two == PQGH({<<3, 2>>})
 A_com == Com(SZ2, 2) \cup Vsshe({<<3, 2>>, <<5, 4>>}, {1, 2, 3})
-N_com == Com({<<5, 4>>}, 2) \cup Vsshe({<<5, 4>>}, {2})
-N_comT == Com(SZ2, 2) \cup Vsshe({<<3, 2>>, <<5, 4>>}, {1, 2})
+A_comq == Com(SZ2, 2) \cup Vsshe({<<5, 4>>}, {2, 3})
+N_comq == Com({<<5, 4>>}, 2) \cup Vsshe({<<5, 4>>}, {2})
+N_com == Com(SZ2, 2) \cup Vsshe({<<3, 2>>, <<5, 4>>}, {1, 2})
 D_com == Com({<<3, 2>>}, 2)
 A_com3 == Com({<<5, 4>>}, 3)
 None == {}
 E_one == {V("pqg", 3, 2, 0, 0, FALSE, 0)}
 \* variants that need the oracle
-V_canon == {w \in Dlog(SZ) \cup PQGH(SZ) : w.canon}
+V_canon == {V("dlog", 1, 1, 0, 0, TRUE, 0)}
 =============================================================================
